@@ -7,5 +7,5 @@ REGISTRY = {
 
 PLAN = {
     "C14": [{"engine": "chain", "level": "fault_enumeration",
-             "quick": {"runs": 480, "budget_s": 150}, "thorough": {"runs": 20000, "budget_s": 3000}}],
+             "quick": {"runs": 3000, "budget_s": 240}, "thorough": {"runs": 60000, "budget_s": 3000}}],
 }
